@@ -399,6 +399,45 @@ func genRecovery(r *Repo) (string, error) {
 		}
 		okList = append(okList, deferIdx >= 0 && opIdx >= 0 && deferIdx < opIdx)
 	}
+	// MustHandle: either it arms `defer txn.Abort()` before the operation like the others, or it opens no transaction
+	// of its own and delegates to one of the helpers above that does
+	{
+		f := r.FuncDecl("fox.go", "Router", "MustHandle")
+		if f == nil {
+			return "", fmt.Errorf("Router.MustHandle not found")
+		}
+		deferIdx, opIdx, opens, delegates := -1, -1, false, false
+		for i, st := range f.Body.List {
+			if ds, ok := st.(*ast.DeferStmt); ok && deferIdx < 0 {
+				if _, ok := isCall(ds.Call, "txn", "Abort"); ok {
+					deferIdx = i
+				}
+			}
+			if opIdx < 0 && strings.Contains(r.Text(st), "txn.Handle") {
+				opIdx = i
+			}
+		}
+		ast.Inspect(f.Body, func(n ast.Node) bool {
+			if ce, ok := n.(*ast.CallExpr); ok {
+				if se, ok := ce.Fun.(*ast.SelectorExpr); ok {
+					switch se.Sel.Name {
+					case "Txn", "txnWith", "txn":
+						opens = true
+					}
+					for k, name := range ops {
+						if se.Sel.Name == name && okList[k] {
+							if id, ok := se.X.(*ast.Ident); ok && f.Recv != nil && len(f.Recv.List) == 1 && len(f.Recv.List[0].Names) == 1 && id.Name == f.Recv.List[0].Names[0].Name {
+								delegates = true
+							}
+						}
+					}
+				}
+			}
+			return true
+		})
+		ops = append(ops, "MustHandle")
+		okList = append(okList, (deferIdx >= 0 && opIdx >= 0 && deferIdx < opIdx) || (!opens && delegates))
+	}
 	fmt.Fprintf(&sb, "def singleOpNames : List String := %s\n", leanStrList(ops))
 	fmt.Fprintf(&sb, "def singleOpDeferAbortFirst : List Bool := %s\n", leanBoolList(okList))
 	fmt.Fprintf(&sb, "def recoverySha : String := %s\n", leanStr(r.Sha("recovery.go", "http_consts.go")))
